@@ -3,3 +3,9 @@ pub mod categorical;
 mod data_traits;
 /// Encode a series (column, array) of categorical variables as one-hot vectors
 pub mod series_encoder;
+
+/// Verification hook: re-export of the private category conversion traits.
+#[cfg(feature = "verif")]
+pub mod verif_data_traits {
+    pub use super::data_traits::{CategoricalFloat, Categorizable};
+}
